@@ -115,15 +115,16 @@ type ASeries struct {
 }
 
 type ACase struct {
-	Frag string          `json:"frag"`
-	Idx  int             `json:"idx"`
-	Q    AQuery          `json:"q"`
-	DB   []AEntry        `json:"db"`
-	Exp  []ARes          `json:"exp"`
-	Dev  bool            `json:"dev"`
-	Pl   json.RawMessage `json:"pl"`
-	MExp []ASeries       `json:"mexp,omitempty"`
-	Why  string          `json:"why,omitempty"`
+	Frag  string          `json:"frag"`
+	Idx   int             `json:"idx"`
+	Q     AQuery          `json:"q"`
+	DB    []AEntry        `json:"db"`
+	Exp   []ARes          `json:"exp"`
+	Dev   bool            `json:"dev"`
+	PlErr bool            `json:"plerr"`
+	Pl    json.RawMessage `json:"pl"`
+	MExp  []ASeries       `json:"mexp,omitempty"`
+	Why   string          `json:"why,omitempty"`
 }
 
 // ----------------------------------------------- pools ------------------------------------------------------
